@@ -56,19 +56,26 @@ func c09LongProp(t *testing.T, k *verifkit.Kit) func(c c09Long) error {
 			time.Sleep(4 * time.Second)
 			conn := w.conns[0]
 			from := vkAddr("fe80::a").WithZone("eth0")
-			for sent := 0; sent < c.N; {
+			stuck := -1
+			for sent := 0; sent < c.N && stuck < 0; {
 				for i := 0; i < 4000 && sent < c.N; i++ {
-					conn.deliver(simIn{Msg: vkRS(false), HopLimit: c.Hop, From: from})
+					if !conn.offer(simIn{Msg: vkRS(false), HopLimit: c.Hop, From: from}) {
+						stuck = sent // nobody reads any more: the verdict follows below
+						break
+					}
 					sent++
 				}
 				synctest.Wait() // the listener drains the socket buffer
 			}
-			conn.deliver(simIn{Msg: vkRS(false), HopLimit: 255, From: vkAddr("fe80::e1").WithZone("eth0")})
+			conn.offer(simIn{Msg: vkRS(false), HopLimit: 255, From: vkAddr("fe80::e1").WithZone("eth0")})
 			time.Sleep(time.Second)
 			if done, _, err := run.finished(); done {
 				verr = verifkit.Violf("C09/long-run-stops-task", "after %d consecutive invalid messages the task returned: %v", c.N, err)
 			} else if !served() {
 				verr = verifkit.Violf("C09/long-run-valid-message-not-served", "after %d consecutive invalid messages the following valid message was not served", c.N)
+			}
+			if verr == nil && stuck >= 0 {
+				verr = verifkit.Violf("C09/long-run-reader-stopped", "after %d consecutive invalid messages nobody reads the socket any more", stuck)
 			}
 			if len(w.conns) != 1 {
 				verr = verifkit.Violf("C09/long-run-redial", "the task re-dialled during a run of invalid messages")
